@@ -259,6 +259,5 @@ def build():
         'checks': checks,
         'notes': 'See DESIGN.md. Known findings: known_findings.json. Seeded breaking changes: seeded/.',
     }
-    if na:
-        m['not_applicable'] = na
+    m['not_applicable'] = na       # explicit (empty: every listed property is claimed and decided by bounded exhaustive enumeration)
     return m
